@@ -80,6 +80,12 @@ def handmade():
         {"meta": {"functions": {"g2": "fx.FnInt", "g3": "fy.FnE"}}, "parameters": {"a": 2, "d": "%g3()%"},
          "services": {"w": {"tags": [{"name": "closer", "priority": 3}, "a"], "calls": [["SetX", ["%d%"]]], "fields": {"F2": "!value fx.Var"}},
                       "v": {"constructor": "fy.NewB", "arguments": ["!tagged io", "@w"]}}}], "args": None})
+    # the same, the later file repeating tag names of the earlier one (a duplicate: whatever the tool does, it does it every time)
+    sc.append({"name": "retagged-across-files", "docs": [
+        {"services": {"w": {"constructor": "NewA", "tags": ["writer", {"name": "io", "priority": 1}, "z", "y"]},
+                      "v": {"constructor": "NewB", "tags": ["k", "l", "m"]}}},
+        {"services": {"w": {"tags": [{"name": "writer", "priority": 3}, "a", {"name": "z", "priority": 2}]},
+                      "v": {"tags": [{"name": "m", "priority": 1}, "k"]}}}], "args": None})
     # keys that differ only by case
     sc.append({"name": "case-colliding-keys", "docs": [{"parameters": {"db": 1, "DB": 2, "Db": 3, "dB": 4, "dsn": "%db%", "DSN": "%DB%"},
                                                         "services": {"svc": {"constructor": "NewA", "fields": {"Ab": 1, "aB": 2, "AB": 3}},
